@@ -205,6 +205,25 @@ fn d_task(tk: &mut Tok) -> Task { assert_eq!(tk.next(), "K"); let b = d_budget(t
 fn d_narsese(tk: &mut Tok) -> ENarsese {
     match tk.next() { "NT" => NarseseValue::Term(d_term(tk)), "NS" => NarseseValue::Sentence(d_sentence(tk)), "NK" => NarseseValue::Task(d_task(tk)), t => panic!("narsese {t}") }
 }
+fn dl_term(tk: &mut Tok) -> lx::Term {
+    let t = tk.next(); let p: Vec<&str> = t.split(':').collect();
+    match p[0] {
+        "LA" => lx::Term::new_atom(unhex(p[1]), unhex(p[2])),
+        "LC" => { let n: usize = p[2].parse().unwrap(); let c = unhex(p[1]); lx::Term::new_compound(c, (0..n).map(|_| dl_term(tk)).collect()) }
+        "LS" => { let n: usize = p[3].parse().unwrap(); let (l, r) = (unhex(p[1]), unhex(p[2])); let v: Vec<lx::Term> = (0..n).map(|_| dl_term(tk)).collect(); lx::Term::new_set(l, v, r) }
+        "LT" => { let c = unhex(p[1]); let a = dl_term(tk); let b = dl_term(tk); lx::Term::new_statement(c, a, b) }
+        _ => panic!("lexical term token {t}"),
+    }
+}
+fn dl_strs(tk: &mut Tok) -> Vec<String> { let n: usize = tk.next().parse().unwrap(); (0..n).map(|_| unhex(tk.next())).collect() }
+fn dl_narsese(tk: &mut Tok) -> lx::Narsese {
+    match tk.next() {
+        "LNT" => NarseseValue::Term(dl_term(tk)),
+        "LNS" => { let t = dl_term(tk); let p = unhex(tk.next()); let st = unhex(tk.next()); let tr = dl_strs(tk); NarseseValue::Sentence(lx::Sentence::new(t, p, st, tr)) }
+        "LNK" => { let b = dl_strs(tk); let t = dl_term(tk); let p = unhex(tk.next()); let st = unhex(tk.next()); let tr = dl_strs(tk); NarseseValue::Task(lx::Task::new(b, t, p, st, tr)) }
+        t => panic!("lexical narsese token {t}"),
+    }
+}
 fn h(t: &Term) -> u64 { let mut s = DefaultHasher::new(); t.hash(&mut s); s.finish() }
 
 fn handle(op: &str, a: &[&str]) -> String {
@@ -230,11 +249,74 @@ fn handle(op: &str, a: &[&str]) -> String {
             format!("{{\"text\":{},\"value\":{},\"parsed\":{},\"equal\":{}}}", js(&s), c_narsese(&v), c_res(&r, c_narsese), eq)
         }
         "typst" => { let mut tk = Tok { t: a[0].split(' ').collect(), i: 0 }; js(&FormatterTypst.format(&d_narsese(&mut tk))) }
+        "term_ops" => {
+            let mut tk = Tok { t: a[0].split(' ').collect(), i: 0 }; let t = d_term(&mut tk);
+            let list = |v: Vec<&Term>| format!("[{}]", v.iter().map(|x| c_term(x)).collect::<Vec<_>>().join(","));
+            let cat = format!("{:?}", t.get_category()); let cap = format!("{:?}", t.get_capacity());
+            let comps = list(t.get_components()); let incl = list(t.get_components_including_placeholder());
+            let cc = match t.get_compound_components() { Some(v) => list(v), None => "null".into() };
+            let name = match t.get_atom_name() { Some(n) => js(&n), None => "null".into() };
+            let preds = format!("[{},{},{},{},{},{},{},{},{},{},{},{}]", t.is_atom(), t.is_compound(), t.is_statement(), t.is_image(),
+                t.is_capacity_atom(), t.is_capacity_unary(), t.is_capacity_binary(), t.is_capacity_binary_vec(), t.is_capacity_binary_set(),
+                t.is_capacity_multi(), t.is_capacity_vec(), t.is_capacity_set());
+            let ex: Vec<String> = t.clone().extract_terms_to_vec().iter().map(c_term).collect();
+            format!("{{\"category\":{},\"capacity\":{},\"components\":{},\"including\":{},\"compound\":{},\"name\":{},\"preds\":{},\"extract\":[{}]}}",
+                js(&cat), js(&cap), comps, incl, cc, name, preds, ex.join(","))
+        }
+        "set_atom_name" => {
+            let mut tk = Tok { t: a[0].split(' ').collect(), i: 0 }; let mut t = d_term(&mut tk);
+            let r = t.set_atom_name(&unhex(a[1])).is_ok();
+            let name = match t.get_atom_name() { Some(n) => js(&n), None => "null".into() };
+            format!("{{\"ok\":{},\"term\":{},\"name\":{}}}", r, c_term(&t), name)
+        }
+        "push_components" => {
+            let mut tk = Tok { t: a[0].split(' ').collect(), i: 0 }; let mut t = d_term(&mut tk);
+            let cs: Vec<Term> = if a[1] == "-" { vec![] } else { a[1].split('|').map(|x| { let mut k = Tok { t: x.split(' ').collect(), i: 0 }; d_term(&mut k) }).collect() };
+            let r = t.push_components(cs).is_ok();
+            format!("{{\"ok\":{},\"term\":{}}}", r, c_term(&t))
+        }
+        "truth_from" => {
+            let fs: Vec<f64> = if a[0] == "-" { vec![] } else { a[0].split(',').map(f64_of).collect() };
+            c_res(&Truth::try_from_floats(fs.into_iter()), c_truth)
+        }
+        "budget_from" => {
+            let fs: Vec<f64> = if a[0] == "-" { vec![] } else { a[0].split(',').map(f64_of).collect() };
+            c_res(&Budget::try_from_floats(fs.into_iter()), c_budget)
+        }
+        "truth_new" => {
+            let fs: Vec<f64> = a[0].split(',').map(f64_of).collect();
+            let t = if fs.len() == 1 { Truth::new_single(fs[0]) } else { Truth::new_double(fs[0], fs[1]) };
+            c_truth(&t)
+        }
+        "budget_new" => {
+            let fs: Vec<f64> = a[0].split(',').map(f64_of).collect();
+            let b = match fs.len() { 1 => Budget::new_single(fs[0]), 2 => Budget::new_double(fs[0], fs[1]), _ => Budget::new_triple(fs[0], fs[1], fs[2]) };
+            c_budget(&b)
+        }
+        "truth_get" => {
+            let mut tk = Tok { t: a[0].split(' ').collect(), i: 0 }; let t = d_truth(&mut tk);
+            let v = if a[1] == "f" { t.f() } else { t.c() }; jf(v)
+        }
+        "budget_get" => {
+            let mut tk = Tok { t: a[0].split(' ').collect(), i: 0 }; let b = d_budget(&mut tk);
+            let v = match a[1] { "p" => b.p(), "d" => b.d(), _ => b.q() }; jf(v)
+        }
+        "evident" => {
+            let x = f64_of(a[0]);
+            let valid = x.is_valid(); let tv = x.try_validate().is_ok();
+            let vp = catch_unwind(AssertUnwindSafe(|| { x.validate(); })).is_err();
+            format!("{{\"is_valid\":{},\"try_ok\":{},\"validate_panics\":{},\"zero\":{},\"one\":{}}}", valid, tv, vp, jf(<f64 as EvidentNumber>::zero()), jf(<f64 as EvidentNumber>::one()))
+        }
         "term_eq" => {
-            let mut tk = Tok { t: a[0].split(' ').collect(), i: 0 }; let x = d_term(&mut tk);
-            let mut tk = Tok { t: a[1].split(' ').collect(), i: 0 }; let y = d_term(&mut tk);
-            let mut set = HashSet::new(); set.insert(x.clone());
-            format!("{{\"eq\":{},\"hash_eq\":{},\"set_contains\":{}}}", x == y, h(&x) == h(&y), set.contains(&y))
+            // unordered components iterate in a per-instance random order: rebuild both terms many times
+            let (mut eq_all, mut eq_any, mut hash_all, mut contains_all) = (true, false, true, true);
+            for _ in 0..64 {
+                let mut tk = Tok { t: a[0].split(' ').collect(), i: 0 }; let x = d_term(&mut tk);
+                let mut tk = Tok { t: a[1].split(' ').collect(), i: 0 }; let y = d_term(&mut tk);
+                let e = x == y; eq_all &= e; eq_any |= e;
+                if e { hash_all &= h(&x) == h(&y); let mut set = HashSet::new(); set.insert(x.clone()); contains_all &= set.contains(&y); }
+            }
+            format!("{{\"eq\":{},\"eq_stable\":{},\"hash_eq\":{},\"set_contains\":{}}}", eq_any, eq_all == eq_any, hash_all, contains_all)
         }
         "reformat" => {
             // parse with format a[0], print with format a[1]
@@ -254,6 +336,18 @@ fn handle(op: &str, a: &[&str]) -> String {
                 Ok(v) => format!("[\"Ok\",{}]", js(&lex_fmt(a[1]).format_narsese(&v))),
                 Err(e) => format!("[\"Err\",{}]", js(&e.to_string())),
             }
+        }
+        "lex_rt_value" => {
+            let mut tk = Tok { t: a[1].split(' ').collect(), i: 0 };
+            let v = dl_narsese(&mut tk);
+            let text = lex_fmt(a[0]).format_narsese(&v);
+            let r = lex_fmt(a[0]).parse(&text);
+            format!("{{\"text\":{},\"value\":{},\"parsed\":{},\"equal\":{}}}", js(&text), l_narsese(&v), c_res(&r, l_narsese), matches!(&r, Ok(w) if *w == v))
+        }
+        "lex_fold_value" => {
+            let mut tk = Tok { t: a[1].split(' ').collect(), i: 0 };
+            let v = dl_narsese(&mut tk);
+            let f: Result<ENarsese, _> = v.try_fold_into(enum_fmt(a[0])); c_res(&f.map_err(|e| format!("{:?}", e)), c_narsese)
         }
         "perr_new" => {
             let env: Vec<char> = unhex(a[0]).chars().collect();
